@@ -128,10 +128,12 @@ def memop (bufs : List (Option ByteArray)) (a : UInt64) : List (Option ByteArray
 /-- `gm_send`'s payload -/
 def mkPayload (size : Nat) (acc : UInt64) (carry : Bool) : List Nat :=
   let pb := (acc % 3).toNat
-  if carry ∧ size ≥ 8 then
+  let base := if carry ∧ size ≥ 8 then
     (List.range 8).map (fun i => ((acc >>> (UInt64.ofNat (8 * i))) &&& 0xff).toNat)
       ++ List.replicate (size - 8) pb
   else List.replicate size pb
+  -- payloads longer than the 32-byte inline buffer often share their first 32 bytes and differ in the tail
+  if size > 32 then base.set (size - 1) ((acc >>> 8) &&& 0x3).toNat else base
 
 def mkEvent (dest tq type size : Nat) (acc : UInt64) (carry : Bool) : Event :=
   { dest := dest, t := tq, type := type, payload := mkPayload size acc carry }
